@@ -10,8 +10,12 @@ import (
 	"log"
 	"os"
 	"sync"
+	"sync/atomic"
 	"testing"
+	"time"
 )
+
+var vClientHold int32
 
 var (
 	vClientMu   sync.Mutex
@@ -21,6 +25,9 @@ var (
 
 func vDrainClientMessages() {
 	for u := range clientMessageChan {
+		for atomic.LoadInt32(&vClientHold) == 1 { // a status publisher that is busy for a while (the queue behind it fills up)
+			time.Sleep(100 * time.Microsecond)
+		}
 		// like the real status publisher, the consumer reads what it was handed (RunClientUpdater marshals every message): an
 		// object that dastard keeps changing after publishing it is then a data race the detector can see
 		json.Marshal(u.state)
